@@ -12,7 +12,7 @@ What is demanded : the docstring of sample() promises "refine: Refine grid by ev
               refine=r with M=1 gives) or a loud failure -- not a silently unrefined result.
 """
 import sys
-sys.path.insert(0, '/tmp/nx_pydeps')
+sys.path.insert(0, '/verif/pydeps')
 import casadi as ca
 from rockit import Ocp, MultipleShooting, DirectCollocation, SplineMethod
 
